@@ -10,6 +10,7 @@ import Driver.Chain
 import Driver.Plug
 import Driver.Sys
 import Driver.Serve
+import Driver.L2Frame
 import Std.Data.HashMap
 open Drv
 
@@ -137,4 +138,5 @@ def main (args : List String) : IO UInt32 := do
   | ["plug"] => run ⟨({} : Plug.St), Plug.step⟩; return 0
   | ["sys"] => run ⟨({} : SysE.St), SysE.step⟩; return 0
   | ["serve"] => run ⟨(), fun _ op res => ((), Serve.step op res)⟩; return 0
+  | ["l2frame"] => run ⟨(), fun _ op res => ((), L2Frame.step op res)⟩; return 0
   | _ => IO.eprintln "usage: drv <engine> < trace"; return 2
